@@ -81,18 +81,29 @@ Closure(db, roots) == LET r0 == roots \cap PK(db) IN Reach(db, r0, r0)
 (* One serialised record: the owner row and the rows deserialize() creates *)
 (* from it.                                                                *)
 (***************************************************************************)
-Owned(db, x) ==
-  {r \in db :
-     \/ r[1] \in PKTables /\ r[2] = x
-     \/ r[1] = "CallEdge" /\ r[2] = x /\ Has(db, "CallNode", x)
-     \/ r[1] = "Argument" /\ r[3] = x /\ Has(db, "CallNode", x)
-     \/ r[1] = "ArgResult" /\ Has(db, "CallNode", x) /\ \E a \in T(db, "Argument") : a[2] = r[2] /\ a[3] = x
-     \/ r[1] \in {"Subvalue", "File", "Task"} /\ r[2] = x /\ Has(db, "Value", x)
-     \/ r[1] = "TagEdit" /\ r[3] = x /\ Has(db, "Tag", x)}
+(* owner of a row (the record it is serialised with); rows of Subtree / Eval have none *)
+IdsOf(db, n) == {r[2] : r \in T(db, n)}
+OwnedBy(db, X) ==
+  LET calls == IdsOf(db, "CallNode") \cap X
+      vals == IdsOf(db, "Value") \cap X
+      tags == IdsOf(db, "Tag") \cap X
+      myargs == {a[2] : a \in {y \in T(db, "Argument") : y[3] \in calls}}
+  IN {r \in db :
+        \/ r[1] \in PKTables /\ r[2] \in X
+        \/ r[1] = "CallEdge" /\ r[2] \in calls
+        \/ r[1] = "Argument" /\ r[3] \in calls
+        \/ r[1] = "ArgResult" /\ r[2] \in myargs
+        \/ r[1] \in {"Subvalue", "File", "Task"} /\ r[2] \in vals
+        \/ r[1] = "TagEdit" /\ r[3] \in tags}
+Owned(db, x) == OwnedBy(db, {x})
 
 (* is_current is not serialised: a new Tag row starts current *)
 AsNew(r) == IF r[1] = "Tag" THEN <<r[1], r[2], r[3], r[4], r[5], r[6], "1">> ELSE r
-NoCur(r) == IF r[1] = "Tag" THEN <<r[1], r[2], r[3], r[4], r[5], r[6]>> ELSE r
+(* columns that are local to a repository and therefore not part of the contract: Tag.is_current
+   (recomputed from the edit graph) and CallNode.timestamp (when this repository first recorded the
+   call node; a call node both repositories computed keeps the destination's own time) *)
+NoCur(r) == IF r[1] = "Tag" THEN <<r[1], r[2], r[3], r[4], r[5], r[6]>>
+            ELSE IF r[1] = "CallNode" THEN <<r[1], r[2], r[3], r[4], r[5], r[6]>> ELSE r
 NoCurSet(S) == {NoCur(r) : r \in S}
 
 (* _postprocess_new_records: a tag with a child edit is not current *)
@@ -106,14 +117,14 @@ New(src, dst, roots) == (Closure(src, roots) \cap PK(src)) \ PK(dst)
 XferIdeal(src, dst, roots) ==
   LET C == Closure(src, roots) \cap PK(src)
       kept == {r \in dst : ~(r[1] = "Job" /\ r[2] \in C)}            \* job rows are refreshed
-      add == UNION {{AsNew(r) : r \in Owned(src, x)} : x \in New(src, dst, roots)}
+      add == {AsNew(r) : r \in OwnedBy(src, New(src, dst, roots))}
       jobs == {r \in T(src, "Job") : r[2] \in C}
       sub == {r \in T(src, "Subtree") : r[2] \in C}
   IN Post(kept \cup add \cup jobs \cup sub)
 
 (* as built, up to the order of children (any permutation; see ChildOrderOK) *)
 XferAsBuilt(src, dst, roots) ==
-  Post(dst \cup UNION {{AsNew(r) : r \in Owned(src, x)} : x \in New(src, dst, roots)})
+  Post(dst \cup {AsNew(r) : r \in OwnedBy(src, New(src, dst, roots))})
 
 (* two row sets are equal up to a renumbering of the child ranks of the call nodes in P *)
 EdgesOf(db, p) == {e \in T(db, "CallEdge") : e[2] = p}
@@ -134,18 +145,18 @@ SameUpToChildOrder(d1, d2, P) ==
 (* every record of the closure is in the destination with exactly the source's rows; split by
    table so that a failure can be attributed *)
 RowsKept(src, d1, roots, tables) ==
-  \A x \in Closure(src, roots) \cap PK(src) :
-     {NoCur(r) : r \in {y \in Owned(src, x) : y[1] \in tables}}
-       = {NoCur(r) : r \in {y \in Owned(d1, x) : y[1] \in tables}}
+  LET C == Closure(src, roots) \cap PK(src) IN
+    {NoCur(r) : r \in {y \in OwnedBy(src, C) : y[1] \in tables}}
+      = {NoCur(r) : r \in {y \in OwnedBy(d1, C) : y[1] \in tables}}
 EdgeTables == {"CallEdge"}
 JobTables == {"Job"}
 OtherTables == {"Execution", "CallNode", "Value", "Tag", "Argument", "ArgResult", "Subvalue", "File",
                 "Task", "TagEdit"}
 (* same children with the same multiplicity, whatever the order *)
 ChildSetsKept(src, d1, roots) ==
-  SameUpToChildOrder({r \in src : r[1] = "CallEdge" /\ r[2] \in Closure(src, roots)},
-                     {r \in d1 : r[1] = "CallEdge" /\ r[2] \in Closure(src, roots)},
-                     Closure(src, roots) \cap {r[2] : r \in T(src, "CallNode")})
+  LET C == Closure(src, roots) IN
+    SameUpToChildOrder({r \in src : r[1] = "CallEdge" /\ r[2] \in C}, {r \in d1 : r[1] = "CallEdge" /\ r[2] \in C},
+                       C \cap IdsOf(src, "CallNode"))
 
 IsCur(db, t) == \E r \in T(db, "Tag") : r[2] = t /\ r[7] = "1"
 EditKids(db, t) == {e[3] : e \in {x \in T(db, "TagEdit") : x[2] = t}}
@@ -159,14 +170,17 @@ TagStatusKept(src, d0, d1, roots) ==
 (* nothing the destination had is lost (a tag may only turn non-current), nothing outside the
    closure appears *)
 Monotone(src, d0, d1, roots) ==
+  LET C == Closure(src, roots)
+      sent == NoCurSet(OwnedBy(src, C))
+      had == NoCurSet(d0) IN
   /\ NoCurSet(d0 \ T(d0, "Job")) \subseteq NoCurSet(d1)
   /\ \A r \in T(d0, "Tag") : r[7] = "0" => r \in d1
-  /\ \A r \in T(d0, "Job") : r \in d1 \/ r[2] \in Closure(src, roots)
+  /\ \A r \in T(d0, "Job") : r \in d1 \/ r[2] \in C
   /\ \A r \in d1 \ d0 :
-       \/ r[1] = "Tag" /\ (\E q \in d0 : NoCur(q) = NoCur(r))                    \* is_current flipped
-       \/ \E x \in Closure(src, roots) : NoCur(r) \in NoCurSet(Owned(src, x))      \* a transferred row
-       \/ r[1] = "CallEdge" /\ r[2] \in Closure(src, roots)                        \* (re-ranked)
-       \/ r[1] = "Subtree" /\ r[2] \in Closure(src, roots)
+       \/ r[1] = "Tag" /\ NoCur(r) \in had                      \* is_current flipped
+       \/ NoCur(r) \in sent                                     \* a transferred row
+       \/ r[1] = "CallEdge" /\ r[2] \in C                       \* (re-ranked)
+       \/ r[1] = "Subtree" /\ r[2] \in C
 Idempotent(d1, d2, n2) == d2 = d1 /\ n2 = 0
 CountOK(src, d0, roots, n) == n = Cardinality(New(src, d0, roots))
 
@@ -214,24 +228,31 @@ FileRows(v) == {<<"Value", v, "redun.File", "pickle", "d_" \o v>>, <<"File", v, 
 ListRows(v, subs) == {<<"Value", v, "list", "pickle", "d_" \o v>>} \cup {<<"Subvalue", v, u>> : u \in subs}
 
 (* content-addressed part of a finished run of workflow w *)
-Content(w) ==
-  LET f == {<<"CallNode", "c_f", "f", "t_f", "a1", "vf", "ts">>,
+Content(w, R) ==
+  LET f == {<<"CallNode", "c_f", "f", "t_f", "a1", "vf", "ts" \o R>>,
             <<"Argument", "arg_f", "c_f", "v1", "0", NULL>>,
             <<"Subtree", "c_f", "t_f">>, <<"Eval", "ev_f", "t_f", "a1", "vf">>}
            \cup ValueRows("v1") \cup FileRows("vf") \cup TaskRows("t_f")
   IN IF w = "w1"
-     THEN f \cup {<<"CallNode", "c_m1", "main1", "t_m1", "a0", "vl", "ts">>, <<"CallEdge", "c_m1", "c_f", "0">>,
+     THEN f \cup {<<"CallNode", "c_m1", "main1", "t_m1", "a0", "vl", "ts" \o R>>, <<"CallEdge", "c_m1", "c_f", "0">>,
                   <<"Subtree", "c_m1", "t_m1">>, <<"Subtree", "c_m1", "t_f">>,
                   <<"Eval", "ev_m1", "t_m1", "a0", "vl">>}
             \cup ListRows("vl", {"vf"}) \cup TaskRows("t_m1")
-     ELSE f \cup {<<"CallNode", "c_m2", "main2", "t_m2", "a0", "v2", "ts">>,
-                  <<"CallNode", "c_g", "g", "t_g", "a2", "v2", "ts">>,
+     ELSE f \cup {<<"CallNode", "c_m2", "main2", "t_m2", "a0", "v2", "ts" \o R>>,
+                  <<"CallNode", "c_g", "g", "t_g", "a2", "v2", "ts" \o R>>,
                   <<"CallEdge", "c_m2", "c_f", "0">>, <<"CallEdge", "c_m2", "c_g", "1">>,
                   <<"Argument", "arg_g", "c_g", "vf", NULL, "x">>, <<"ArgResult", "arg_g", "c_f">>,
                   <<"Subtree", "c_m2", "t_m2">>, <<"Subtree", "c_m2", "t_f">>, <<"Subtree", "c_m2", "t_g">>,
                   <<"Subtree", "c_g", "t_g">>,
                   <<"Eval", "ev_m2", "t_m2", "a0", "v2">>, <<"Eval", "ev_g", "t_g", "a2", "v2">>}
             \cup ValueRows("v2") \cup TaskRows("t_m2") \cup TaskRows("t_g")
+
+(* what a run adds to a repository holding d: record_call_node / record_value write nothing for a
+   call node or value that is already there (no edges, arguments or subtree rows either) *)
+NewContent(d, w, R) ==
+  LET cont == Content(w, R)
+      fresh == PK(cont) \ PK(d) IN
+    OwnedBy(cont, fresh) \cup {r \in T(cont, "Subtree") : r[2] \in fresh} \cup T(cont, "Eval")
 
 RootCall(w) == IF w = "w1" THEN "c_m1" ELSE "c_m2"
 RootTask(w) == IF w = "w1" THEN "t_m1" ELSE "t_m2"
@@ -263,7 +284,7 @@ Run(R, w, cut) ==
   /\ nexec < MaxExec
   /\ LET n == nexec + 1 IN
        /\ db' = [db EXCEPT ![R] = @ \cup {ExecRow(n)} \cup JobRows(n, w, @, ~cut)
-                                     \cup (IF cut THEN {} ELSE Content(w))]
+                                     \cup (IF cut THEN {} ELSE NewContent(@, w, R))]
        /\ pend' = IF cut THEN pend \cup {[repo |-> R, n |-> n, w |-> w]} ELSE pend
        /\ nexec' = n
   /\ last' = NoLast /\ UNCHANGED <<ntag, nx>>
@@ -272,7 +293,7 @@ Run(R, w, cut) ==
 Finish(p) ==
   /\ p \in pend
   /\ db' = [db EXCEPT ![p.repo] = (@ \ JobRows(p.n, p.w, {}, FALSE)) \cup JobRows(p.n, p.w, @, TRUE)
-                                       \cup Content(p.w)]
+                                       \cup NewContent(@, p.w, p.repo)]
   /\ pend' = pend \ {p}
   /\ last' = NoLast /\ UNCHANGED <<nexec, ntag, nx>>
 
